@@ -72,10 +72,16 @@ def post_mortem(exc_info):
                 exc_info = sys.exc_info()
 
     print(''.join(traceback.format_exception_only(exc_info[0], exc_info[1])))
-    if _use_ipdb():
-        ipdb.post_mortem(exc_info[2])
-    else:
-        pdb.post_mortem(exc_info[2])
+    # The debugger resets the trace function when it is left with
+    # ``continue``; put back the one the caller had (e.g. a coverage tool).
+    old_trace = sys.gettrace()
+    try:
+        if _use_ipdb():
+            ipdb.post_mortem(exc_info[2])
+        else:
+            pdb.post_mortem(exc_info[2])
+    finally:
+        sys.settrace(old_trace)
     raise zope.testrunner.interfaces.EndRun()
 
 
